@@ -46,8 +46,8 @@ def load_baseline():
 def text_changed(r, baseline):
     """has the text the obligation was generated from changed w.r.t. the recorded baseline (the tree on which
     every obligation was discharged)?  Function text; for refs.py (class table read from the whole file) the file."""
-    key = f"{r.contract.module}:{r.contract.qualname}"
-    if baseline["functions"].get(key) != r.sha:
+    key = f"{r.contract.module}:{r.contract.qualname}" + (("@" + r.contract.extra["variant"]) if r.contract.extra.get("variant") else "")
+    if baseline["functions"].get(key, baseline["functions"].get(f"{r.contract.module}:{r.contract.qualname}")) != r.sha:
         return True
     if r.contract.module == "xdeps/refs.py":
         import hashlib
